@@ -50,7 +50,17 @@ def run(ck):
     nwf = 0
     for tp, (res, rejected) in zip(traces, vlib.parallel(val, traces, n=8)):
         notes = cellcommon.notes_by_line(res)
-        nwf += sum(1 for ns in notes.values() for n in ns if n and n[0] == "not-well-formed")
+        bad_lines = {ln for ln, ns in notes.items() for n in ns if n and n[0] == "not-well-formed"}
+        nwf += len(bad_lines)
+        if bad_lines:
+            # cells the library itself produced from well-formed cells (in memory, through ReadBits, as a Merkle proof) or parsed from the
+            # repository's own bags must be well-formed: a DAG that is not is a finding, not something outside the quantifier
+            for ln, l in enumerate(open(tp), 1):
+                if ln in bad_lines:
+                    e = json.loads(l)
+                    ck.report("C02:table:%s:not-well-formed" % cellcommon.src_class(e),
+                              "the cells obtained from source %s do not form a well-formed DAG (Cells!WellFormed: exotic cell layouts, level masks, stored hashes and depths of pruned branches / Merkle cells)" % e.get("src"),
+                              {"kind": "trace", "event": cellcommon.slim(e, 20000), "note": "not-well-formed"})
         for rj in rejected:
             e = rj["event"]
             if e["k"] == "Panic":
